@@ -152,6 +152,16 @@ Theorem c03_artifacts_removed_iff : forall f fails play,
   play = [] /\ (f_noplot f = true \/ fails DPlot = false) /\ f_clear f = false /\ f_keep f = false.
 Proof. exact artifacts_removed_iff. Qed.
 
+(** Both halves together: whatever conduct's funnel returns ([e], e.g.
+    [conduct_result true ch o verdict cleanup]), the process exits non-zero
+    exactly when that error is non-nil or an executed directory / upload
+    operation failed. *)
+Theorem c03_exit_iff_funnel_error_or_operation_failed : forall f fails intr e,
+  run_exit_nonzero f fails (lift_err intr e) = true <->
+  exit_nonzero e = true \/
+  exists d, In d (snd (run_stage f fails (lift_err intr e))) /\ fails d = true.
+Proof. exact whole_exit_iff. Qed.
+
 Example c03_run_nonvacuous :
   run_stage {| f_clear := true; f_keep := false; f_noplot := false |}
             (fun d => dop_eqb d DRmAll) [] =
